@@ -145,9 +145,13 @@ def shard(ctx):
     else:
         cells = [(c, p) for c, p in shipped if c in isos]
         cells += [("WOR", p) for p in sorted(presets) if presets[p].get("scale") == "global"]
+        # the three countries for which the loader rewrites known-bad combinations: every preset that can hit such a rule
+        risky = [p for p in sorted(presets) if presets[p].get("scale") != "global" and presets[p].get("scenario") not in ("no_resilient_foods",)
+                 and presets[p].get("shutoff") in ("continued", "long_delayed_shutoff", "short_delayed_shutoff")]
+        cells += [(i, p) for i in ("SLV", "ALB", "ECU") for p in risky[::3]]
         rest = [(i, p) for p in sorted(presets) if presets[p].get("scale") != "global" for i in isos]
         rng = np.random.RandomState(ctx.seed)      # seeded sample of the remaining grid (finite domain; not a property-level RNG)
-        pick = rng.choice(len(rest), size=min(len(rest), 120), replace=False)
+        pick = rng.choice(len(rest), size=min(len(rest), 100), replace=False)
         cells += [rest[k] for k in sorted(pick)]
     for n, (iso, pid) in enumerate(cells):
         if n % ctx.nshards != ctx.shard:
